@@ -16,7 +16,9 @@ import (
 func init() {
 	executors["evolve"] = execEvolve
 	generators["evolve"] = func(r *rand.Rand, enc *json.Encoder, cfg Cfg, id, depth int) { genEvolve(r, enc, cfg, id, depth, true) }
-	generators["merge"] = func(r *rand.Rand, enc *json.Encoder, cfg Cfg, id, depth int) { genEvolve(r, enc, cfg, id, depth, false) }
+	generators["merge"] = func(r *rand.Rand, enc *json.Encoder, cfg Cfg, id, depth int) {
+		genEvolve(r, enc, cfg, id, depth, false)
+	}
 }
 
 type evolveHdr struct {
